@@ -324,8 +324,23 @@ let run_rfault (payload : string) : string =
       r ^ " | whole: " ^ whole
   | _ -> failwith "bad rfault payload"
 
+(* transcode: "<j2c|c2j> <hex> [<float oracle>]" *)
+let run_transcode (payload : string) : string =
+  match split_ws payload with
+  | dir :: hex :: rest ->
+      let bs = if hex = "-" then [] else bytes_of_hex hex in
+      let total = List.length bs in
+      let oracle = (match rest with o :: _ -> o | [] -> "-") in
+      let r = if dir = "j2c" then M.pump_j2c bs
+        else M.pump_c2j (make_shortest oracle) { M.jline = None; M.jindent = [] } false bs in
+      (match r with
+       | M.PumpOk (out, rest) -> Printf.sprintf "ok %s @%d" (hex_or_dash out) (total - List.length rest)
+       | M.PumpErr -> "err")
+  | _ -> failwith "bad transcode payload"
+
 let dispatch (suite : string) (payload : string) : string =
   match suite with
+  | "transcode" -> run_transcode payload
   | "wfault" -> run_wfault payload
   | "rfault" -> run_rfault payload
   | "sched-dec" -> run_sched_dec payload
